@@ -273,9 +273,9 @@ func encodeStruct(w *wbuf, fields []Field, m Msg, ver int16, flex bool, path str
 	}
 	tp := joinPath(path, "_tags")
 	for t, data := range extra {
-		for _, k := range tagged {
-			if k.tag == t {
-				return fmt.Errorf("%s: unknown tag %d collides with a known tagged field", tp, t)
+		for i := range fields {
+			if f := &fields[i]; f.Tag >= 0 && uint32(f.Tag) == t && f.TaggedVersions.Has(ver) {
+				return fmt.Errorf("%s: unknown tag %d collides with the known tagged field %s", tp, t, f.Name)
 			}
 		}
 		tagged = append(tagged, taggedOut{tag: t, path: tp + "[" + strconv.FormatUint(uint64(t), 10) + "]", data: data})
